@@ -106,4 +106,31 @@ theorem scan_no_miss (O : Oracles) : ∀ fuel pos, O.n - pos < fuel → ∀ x, p
           · subst hxeq; exact ha
           · exact ih (s + 1) (by omega) x (by omega) hxn hnc
 
+
+/-- the same loop without the proof fields (what the driver runs on tables taken from the real lexer and parser) -/
+def scanRaw (search attempt : Nat → Option Nat) : Nat → Nat → List (Nat × Nat)
+  | 0, _ => []
+  | fuel+1, pos =>
+    match search pos with
+    | none => []
+    | some s =>
+      match attempt s with
+      | some e => (s, e) :: scanRaw search attempt fuel e
+      | none => scanRaw search attempt fuel (s + 1)
+
+theorem scan_eq_raw (O : Oracles) : ∀ fuel pos, scan O fuel pos = scanRaw O.search O.attempt fuel pos := by
+  intro fuel
+  induction fuel with
+  | zero => intro pos; rfl
+  | succ f ih =>
+    intro pos
+    simp only [scan, scanRaw]
+    cases O.search pos with
+    | none => rfl
+    | some s =>
+      simp only
+      cases O.attempt s with
+      | none => exact ih _
+      | some e => simp only; rw [ih]
+
 end ScanProto
